@@ -238,3 +238,25 @@ def swap_if_else(src):
     tree = _SwapIfElse().visit(tree)
     ast.fix_missing_locations(tree)
     return ast.unparse(tree)
+
+
+class _ExpandAug(ast.NodeTransformer):
+    """`x += c` -> `x = x + c` and `x -= c` -> `x = x - c` where x is a plain name and c a numeric literal (a number has no in-place addition, so
+    the two spellings are the same statement), and the reverse for `x = x + c` is NOT applied (one direction is enough to expose spelling dependence)."""
+
+    def visit_AugAssign(self, node):
+        self.generic_visit(node)
+        if isinstance(node.target, ast.Name) and isinstance(node.op, (ast.Add, ast.Sub)) and isinstance(node.value, ast.Constant) \
+                and isinstance(node.value.value, (int, float)) and not isinstance(node.value.value, bool):
+            return ast.copy_location(ast.Assign(targets=[ast.Name(node.target.id, ast.Store())],
+                                                value=ast.BinOp(ast.Name(node.target.id, ast.Load()), node.op, node.value)), node)
+        return node
+
+
+def expand_augassign(src):
+    with warnings.catch_warnings():
+        warnings.simplefilter("ignore")
+        tree = ast.parse(src)
+    tree = _ExpandAug().visit(tree)
+    ast.fix_missing_locations(tree)
+    return ast.unparse(tree)
